@@ -35,7 +35,7 @@ P = 'circus.process:Process.'
 
 
 def check(run, ctx):
-    run.each(ctx, [r1, r2, r3, r4, r5, r6, r7, r8, r9, r10, r11])
+    run.each(ctx, [r1, r2, r3, r4, r5, r6, r7, r8, r9, r10, r11, r12, r13])
 
 
 def r10(run, ctx):
@@ -558,3 +558,19 @@ def r11(run, ctx):
               'process table, and spawn_process swallows the ValueError of a descriptor "added '
               'twice" - the child then runs in no watcher\'s table, is never stopped, and the '
               'watcher stays short of a worker')
+
+
+def r12(run, ctx):
+    from rules import c17
+    run.share(ctx, c17.r6, 'R6', 'R12', 'a new worker is created with the pipes the redirector '
+              'asks for (shared with C17 R6): a missing handle makes add_redirections raise '
+              'between the creation of the child and its entry into the process table, and '
+              'spawn_process does not catch AttributeError - the child is left untracked and the '
+              'watcher stuck in "starting"')
+
+
+def r13(run, ctx):
+    from rules import c09
+    run.share(ctx, c09.r2, 'R2', 'R13', 'reap_process untracks a worker only when it has '
+              'collected it (shared with C09 R2): a way out between the removal of the pid and '
+              'the reap event leaves a live child in no table')
